@@ -1478,7 +1478,17 @@ fn fam_random<T: Payload>(c: &Case, cx: &mut Ctx) -> Outcome {
             let role = sc.role_of(live.len().max(0)) * 0 + (sc.n_workers() as u32 + 1);
             let reg_passes = |role: u32| fp::pass_count(role, WAIT_ENTER) + fp::pass_count(role, WAIT_TIMEOUT_ENTER) + fp::pass_count(role, REGISTER_WAKER);
             let passes0 = reg_passes(role);
-            let w = sc.spawn(if recv_side { Side::R } else { Side::S }, rng.chance(1, 2), vec![k]);
+            // one waiter in four does not get a clone of its own: it uses main's handle through a shared reference
+            // (several operations in flight through ONE handle; the handle counts stay where they are)
+            let side = if recv_side { Side::R } else { Side::S };
+            let shareable = if recv_side { !sc.main.receivers.is_empty() } else { !sc.main.senders.is_empty() };
+            let asyncf = rng.chance(1, 2);
+            let w = if shareable && !matches!(k, Op::StreamNext) && rng.chance(1, 4) {
+                *cx.cells.entry("random/shared-handle-waiters".to_string()).or_insert(0) += 1;
+                sc.spawn_shared(side, vec![k])
+            } else {
+                sc.spawn(side, asyncf, vec![k])
+            };
             // either it returns at once, or it shows up in the wait list
             let t0 = std::time::Instant::now();
             let mut n = 0u32;
